@@ -1,5 +1,6 @@
 import Mutiny.Model.Ring
 import Mutiny.Model.Ring32
+import Mutiny.Model.LockRing32
 import Mutiny.Model.LockRing
 import Mutiny.Model.Handles
 import Mutiny.Model.IncAvg
@@ -186,6 +187,36 @@ def handlesMachine : Machine Handles.St where
     | _ => none
   describe s t := reprStr (s.thr t) ++ s!" free={s.free} cbs={reprStr s.cbs}"
   cmpVal tag := tag == "oa.inc"   -- (the slot id reported at `pa.dealloc.*` is checked through the results instead)
+
+/-! ### M2/32 LockRing32 -/
+structure LockRing32D where
+  s : Mutiny.LockRing.St
+  panicked : Bool
+
+open Mutiny in
+def lockRing32Machine : Machine LockRing32D where
+  call d t op args :=
+    if d.panicked then none else
+    let idle := d.s.thr t == .idle
+    match op, args with
+    | "send", [v]  => if idle then some { d with s := LockRing.apply d.s (.send t v.toNat!) } else none
+    | "recv", []   => if idle then some { d with s := LockRing.apply d.s (.recv t) } else none
+    | "len", []    => if idle then some { d with s := LockRing.apply d.s (.len t) } else none
+    | _, _ => none
+  tag d t := if d.panicked then none else LockRing.tagOf (d.s.thr t)
+  step d t := match LockRing32.step32 d.s t with
+    | some s' => { d with s := s' }
+    | none => { d with panicked := true }
+  result d t := if d.panicked then some "panic" else match d.s.thr t with
+    | .done r => some r.show
+    | _ => none
+  ack d t := { d with s := LockRing.apply d.s (.ack t) }
+  observe d k := match k with
+    | "abs" => some (showList (d.s.accepted.drop d.s.delivered.length))
+    | "len" => some (toString (Mutiny.U32.len32 d.s.tail d.s.head))
+    | _ => none
+  describe d t := reprStr (d.s.thr t) ++ s!" head={d.s.head} tail={d.s.tail} locked={d.s.locked} panicked={d.panicked}"
+  cmpVal _ := false
 
 /-! ### M12a IncAvg — `avgUpd` instantiated with the IEEE single-precision formula of `inc` -/
 def avgUpdF32 (c a x : Nat) : Nat :=
@@ -442,6 +473,7 @@ def mkMachine (kv : List (String × String)) : Option AnyMachine :=
   match lookup kv "model" with
   | some "ring" => some { σ := _, m := ringMachine, s := { s := Mutiny.Ring.init n, origin := ((lookup kv "origin").getD "0").toNat! } }
   | some "ring32" => some { σ := _, m := ring32Machine, s := { s := Mutiny.Ring32.init32 n (((lookup kv "origin").getD "0").toNat!), panicked := false } }
+  | some "lockring32" => some { σ := _, m := lockRing32Machine, s := { s := Mutiny.LockRing32.init32 n (((lookup kv "origin").getD "0").toNat!), panicked := false } }
   | some "lockring" => some { σ := _, m := lockRingMachine, s := Mutiny.LockRing.init n }
   | some "incavg" => some { σ := _, m := incAvgMachine, s := Mutiny.IncAvg.init }
   | some "stack" => some { σ := _, m := stackMachine, s := Mutiny.Stack.init n }
